@@ -309,7 +309,11 @@ def drive(rnd: random.Random, n: int) -> t.List[t.Dict[str, t.Any]]:
                 e = {"op": "rint", "inp": L(inp), "en": en, "res": "ok", "v": C.limb(0), "rest": []}
                 try:
                     r = ASN1Reader(inp)
-                    got = r.read_enumerated(int) if en else r.read_integer()
+                    if rnd.random() < 0.4:   # the peek-then-read idiom: the header alone does not say that the content is there
+                        h_ = r.peek_header()
+                        got = r.read_enumerated(int, header=h_) if en else r.read_integer(header=h_)
+                    else:
+                        got = r.read_enumerated(int) if en else r.read_integer()
                     e["v"] = C.limb(got)
                     e["rest"] = L(r.get_remaining_data())
                 except Exception as ex:  # noqa: BLE001
@@ -358,10 +362,12 @@ def drive(rnd: random.Random, n: int) -> t.List[t.Dict[str, t.Any]]:
                 n_ = len(val)
                 lo = _tlv(b"", val)[: -n_ or None] if lenform == 0 else bytes([0x80 | (k := rnd.randrange(max(1, (n_.bit_length() + 7) // 8), 9))]) + n_.to_bytes(k, "big")
                 inp = b"\x04" + lo + val + trail
+                if rnd.random() < 0.08:
+                    inp = inp[: rnd.randrange(1, len(inp))] if len(inp) > 1 else inp   # truncated: must be refused, not read short
                 e = {"op": "roct", "inp": L(inp), "res": "ok", "val": [], "rest": []}
                 try:
                     r = ASN1Reader(inp if rnd.random() < 0.4 else bytearray(inp) if rnd.random() < 0.4 else memoryview(inp) if rnd.random() < 0.5 else memoryview(inp).cast("b"))
-                    e["val"] = L(r.read_octet_string())
+                    e["val"] = L(r.read_octet_string(header=r.peek_header()) if rnd.random() < 0.4 else r.read_octet_string())
                     e["rest"] = L(r.get_remaining_data())
                 except Exception as ex:  # noqa: BLE001
                     e["res"] = C.exc_kind(ex)
